@@ -7,12 +7,14 @@
      crates/printer/src/summary.rs          SummaryKind::{requires_path, requires_stats, quit_early},
                                             SummarySink::should_quit
      crates/printer/src/standard.rs         StandardSink::{should_quit, match_more_than_limit}
-     crates/ignore/src/walk.rs              should_skip_entry, skip_filesize
+     crates/printer/src/json.rs             JSONSink::{should_quit, match_more_than_limit}
+     crates/ignore/src/walk.rs              should_skip_entry, skip_filesize, Walk::skip_entry,
+                                            Worker::generate_work (the two skip decisions and the send condition)
    Every function takes the struct fields / method results the Rust function reads, one argument each
    (the argument names are those of Gen/DecisionsLib.v).  These copies are used by the generated file only
    when the current source text cannot be translated (the owning check then reports the broken tie);
    Proofs/GenLibProofs.v proves generated = the model definitions of Model/SearcherCore.v, Glue.v,
-   SearcherGlue.v, Decode.v, Summary.v, Standard.v, WalkFilter.v, BinaryDetect.v.  Definitions only. *)
+   SearcherGlue.v, Decode.v, Summary.v, Standard.v, Json.v, IgnoreDir.v, Walk.v.  Definitions only. *)
 From RG Require Import Base.Bytes Base.LineTerm Model.Summary.
 Local Open Scope bool_scope.
 
@@ -67,3 +69,31 @@ Definition should_skip_entry_expected (is_ignore is_whitelist : bool) : bool :=
 (* walk.rs skip_filesize: `ent` is the metadata (its len()), None when it could not be read *)
 Definition skip_filesize_expected (max_filesize : N) (md_len : option N) : bool :=
   match md_len with Some fs => (max_filesize <? fs)%N | None => false end.
+
+(* JSONSink::{should_quit, match_more_than_limit}: the same text as the standard printer's *)
+Definition json_should_quit_expected := standard_should_quit_expected.
+Definition json_match_more_than_limit_expected := match_more_than_limit_expected.
+
+(* walk.rs `struct Filter(Arc<dyn Fn(&DirEntry) -> bool>)`: represented by its verdict on the entry at hand *)
+Inductive filter_box := FilterBox (keep : bool).
+
+(* Walk::skip_entry (serial walker).  Arguments: ent.depth(); should_skip_entry(&self.ig, ent); self.skip (the
+   stdout handle, `Some tt` when present); the Ok value of path_equals(ent, stdout)?; self.max_filesize.is_some();
+   ent.is_dir(); the verdict of the skip_filesize(..) call; self.filter applied to ent.  (An Err of path_equals
+   leaves the function through `?` and is not part of this decision.) *)
+Definition skip_entry_expected (depth : nat) (should_skip : bool) (skip : option unit) (path_equals : bool)
+    (max_filesize_is_some is_dir skip_filesize_verdict : bool) (filter : option filter_box) : bool :=
+  if Nat.eqb depth 0 then false else
+  if should_skip then true else
+  if match skip with Some _ => path_equals | None => false end then true else
+  if max_filesize_is_some && negb is_dir && skip_filesize_verdict then true else
+  match filter with Some (FilterBox keep) => negb keep | None => false end.
+
+(* Worker::generate_work: `let should_skip_filesize = ..`, `let should_skip_filtered = ..` and the condition of
+   `self.send(Work {..})` *)
+Definition par_should_skip_filesize_expected (max_filesize_is_some is_dir skip_filesize_verdict : bool) : bool :=
+  if max_filesize_is_some && negb is_dir then skip_filesize_verdict else false.
+Definition par_should_skip_filtered_expected (filter : option filter_box) : bool :=
+  match filter with Some (FilterBox keep) => negb keep | None => false end.
+Definition par_send_expected (should_skip_filesize should_skip_filtered : bool) : bool :=
+  negb should_skip_filesize && negb should_skip_filtered.
